@@ -865,9 +865,15 @@ def _raw_materials_to_finished_goods(node):
 			if units_ordered == 0:
 				share_frac = {prod_index: 1 / len(prods_for_rm) for prod_index in prods_for_rm}
 			else:
-				share_frac = {prod_index: node.state_vars[period - OLT - SLT].order_quantity_fg[prod_index] \
+				# Each product's share is its part of the raw material units implied by the finished-goods orders
+				# placed LT periods ago. (Normalizing by their sum, rather than by units_ordered, keeps the shares
+				# summing to 1 even if the raw material order quantities were overridden.)
+				units_implied = {prod_index: node.state_vars[period - OLT - SLT].order_quantity_fg[prod_index] \
 											* node.NBOM(product=prod_index, predecessor=None, raw_material=rm_index) \
-											/ units_ordered for prod_index in prods_for_rm}
+											for prod_index in prods_for_rm}
+				total_implied = sum(units_implied.values())
+				share_frac = {prod_index: (units_implied[prod_index] / total_implied if total_implied > 0 else 0) \
+								for prod_index in prods_for_rm}
 			
 			# Determine each product's share of this raw material.
 			share[rm_index] = {prod_index: avail_rm * share_frac[prod_index] for prod_index in prods_for_rm}
